@@ -62,6 +62,15 @@ def predict(cfg, q=None, tol=1e-7):
         return [], 0
     out = []
     r = residuals(q)
+    # closed form of B20: the poloidally averaged O(r^2) part of |B|^2 (w . e_phi) = G (G + iota I), evaluated from the returned geometry
+    try:
+        import oracle_C01
+        if oracle_C01.spectral_tail(q) < 1e-10:
+            res_, scale_ = oracle_C01.residuals(q, np.random.default_rng(0))
+            c2 = res_['modB'].c[2]
+            r['B20_closed'] = (float(np.max(np.abs(np.mean(c2, axis=0)))) , float(scale_['modB'][2]) * 1e-2)
+    except Exception:
+        pass
     for name, (res, sc) in r.items():
         if not np.isfinite(res) or res > tol * sc:
             out.append(dict(key=name, what='%s: residual %.3g vs scale %.3g' % (name, res, sc), cfg=jsonable(cfg)))
